@@ -1,7 +1,7 @@
 #!/bin/bash
 # tools/seed_verify.sh <ID> : confirm a sub-agent's seeded change in its scratch worktree
 #   (demo fails with the change, passes without, existing tests pass with the change)
-ID=$1; WT=/tmp/seed_$ID; OUT=/tmp/seed_out/$ID
+TAG=$1; ID=$TAG; WT=/tmp/seed_$TAG; OUT=/tmp/seed_out/$TAG
 cd $WT || exit 2
 CMD=$(python3 -c "import json;print(json.load(open('$OUT/meta.json'))['demo_cmd'])")
 echo "demo_cmd: $CMD"
